@@ -60,6 +60,127 @@ func (q queueAnchors) isCap(t *T) bool {
 	return false
 }
 
+// inRing: is v in [0, capacity) on path p of fn, given that the cursors are
+// (the invariant MOD.queue establishes by induction)?  Accepted: 0, _ % size,
+// a cursor, x+1 under x+1 != size (or x+1 < size) with x in the ring, and a
+// loop variable that starts in the ring and whose every step stays in it.
+func (q queueAnchors) inRing(w *World, fn *ssa.Function, p *Path, v *T, assume map[string]bool) bool {
+	v = stripConv(v)
+	if v.IsConstVal(0) || assume[v.Key()] {
+		return true
+	}
+	if v.Op == "rem" && q.isCap(v.A[1]) {
+		return true
+	}
+	for _, cf := range q.cursors {
+		if _, ok := selOf(v, cf); ok {
+			return true
+		}
+	}
+	if v.Op == "add" {
+		l := linearOf(v)
+		if l.Const == 1 && len(l.Coef) == 1 {
+			for k, a := range l.Atom {
+				if l.Coef[k] != 1 || !q.inRing(w, fn, p, a, assume) {
+					return false
+				}
+			}
+			return hasCond(p, func(a *T, val bool) bool {
+				switch {
+				case a.Op == "eq" && !val:
+					return (sameTerm(stripConv(a.A[0]), v) && q.isCap(a.A[1])) || (sameTerm(stripConv(a.A[1]), v) && q.isCap(a.A[0]))
+				case a.Op == "lt" && val:
+					return sameTerm(stripConv(a.A[0]), v) && q.isCap(a.A[1])
+				}
+				return false
+			})
+		}
+		return false
+	}
+	if v.Op == "loopvar" && fn != nil && int(v.C) < len(fn.Blocks) {
+		phiIdx, n := -1, 0
+		for _, in := range fn.Blocks[int(v.C)].Instrs {
+			if ph, isPhi := in.(*ssa.Phi); isPhi {
+				if ph.Comment == v.S {
+					phiIdx = n
+				}
+				n++
+			}
+		}
+		if phiIdx < 0 {
+			return false
+		}
+		var init *T
+		for i := range p.Events {
+			e := &p.Events[i]
+			if e.Kind == "enterloop" && e.Res.C == v.C && phiIdx < len(e.Args) {
+				init = e.Args[phiIdx]
+			}
+		}
+		if init == nil || !q.inRing(w, fn, p, init, assume) {
+			return false
+		}
+		paths, err := w.Paths(fn)
+		if err != nil {
+			return false
+		}
+		as := map[string]bool{v.Key(): true}
+		for k := range assume {
+			as[k] = true
+		}
+		for _, bp := range paths {
+			if bp.End != "backedge" {
+				continue
+			}
+			be := bp.Events[len(bp.Events)-1]
+			if be.Res.C != v.C {
+				continue
+			}
+			if phiIdx >= len(be.Args) || !q.inRing(w, fn, bp, be.Args[phiIdx], as) {
+				return false
+			}
+		}
+		return true
+	}
+	return false
+}
+
+// ringSucc: on path p, is v the ring successor of x — (x+1) % size, or the
+// branch form: 0 where x+1 == size, x+1 where it is not?
+func (q queueAnchors) ringSucc(p *Path, x, v *T) bool {
+	x, v = stripConv(x), stripConv(v)
+	plusOne := func(t *T) bool {
+		l := linearOf(t)
+		if l.Const != 1 || len(l.Coef) != 1 {
+			return false
+		}
+		for k, a := range l.Atom {
+			if l.Coef[k] != 1 || !sameTerm(stripConv(a), x) {
+				return false
+			}
+		}
+		return true
+	}
+	if v.Op == "rem" && q.isCap(v.A[1]) {
+		return plusOne(v.A[0])
+	}
+	wraps := func(want bool) bool {
+		return hasCond(p, func(a *T, val bool) bool {
+			if a.Op == "eq" && val == want {
+				return (plusOne(a.A[0]) && q.isCap(a.A[1])) || (plusOne(a.A[1]) && q.isCap(a.A[0]))
+			}
+			if a.Op == "lt" && val == !want {
+				return plusOne(a.A[0]) && q.isCap(a.A[1])
+			}
+			return false
+		})
+	}
+	if v.IsConstVal(0) {
+		return wraps(true)
+	}
+	return plusOne(v) && wraps(false)
+}
+
 type queueAnchors struct {
 	buf, size, length string
 	cursors           []string
@@ -224,7 +345,6 @@ func ruleModQueue(w *World, r *RuleResult) {
 	}
 	qn := c.a.QueueT.Obj().Name()
 	d := newDedup(r)
-	isSize := q.isCap
 	cursor := func(t *T) bool {
 		for _, cf := range q.cursors {
 			if _, ok := selOf(t, cf); ok {
@@ -250,13 +370,13 @@ func ruleModQueue(w *World, r *RuleResult) {
 				}
 				if e.Kind == "store" && cursor(e.LV) {
 					v := stripConv(e.Val)
-					good := v.IsConstVal(0) || (v.Op == "rem" && isSize(v.A[1]))
-					d.add(good, fn.Name()+"/cursor="+e.LV.S, c.posOf(e), "0 or _ % size", "queue cursor "+e.LV.S+" set to "+v.Show()+", which is not reduced modulo the capacity")
+					good := q.inRing(w, fn, p, v, nil)
+					d.add(good, fn.Name()+"/cursor="+e.LV.S, c.posOf(e), "0, _ % size, or cursor+1 under cursor+1 != size", "queue cursor "+e.LV.S+" set to "+v.Show()+", which is not reduced modulo the capacity")
 				}
 				if e.LV.Op == "elem" {
 					if _, ok := selOf(e.LV.A[0], q.buf); ok {
 						idx := stripConv(e.LV.A[1])
-						good := cursor(idx) || (idx.Op == "rem" && isSize(idx.A[1]))
+						good := q.inRing(w, fn, p, idx, nil)
 						d.add(good, fn.Name()+"/buffer["+e.Kind+"]", c.posOf(e), "index is a cursor or _ % size", "queue buffer indexed by "+idx.Show())
 					}
 				}
